@@ -1,4 +1,4 @@
-"""E9 — linear entailment over the rationals by Fourier–Motzkin elimination (no external solver).
+"""E9 — linear entailment by Fourier–Motzkin elimination with integer tightening of every constraint (no external solver).
 
 entails(hyps, goal): do the hypotheses {h >= 0} imply goal >= 0 ?  All forms are dicts atom -> Fraction with '' the constant.
 Integer tightening is used for strict negation: not(goal >= 0) is goal <= -1 (all atoms are integers here).
@@ -10,9 +10,76 @@ def _norm(c):
     return {k: Fraction(v) for k, v in c.items() if v != 0}
 
 
+def _tighten(c):
+    """Integer tightening of  sum a_i x_i + c0 >= 0  (every atom is an integer quantity): scale to integer coefficients, divide by their
+    gcd g and round the constant down:  sum (a_i/g) x_i + floor(c0/g) >= 0.  Sound over the integers, and what lets  16k < 16q  give  k + 1 <= q."""
+    from math import gcd
+    ks = [k for k in c if k != '']
+    if not ks:
+        return c
+    den = 1
+    for k in c:
+        den = den * c[k].denominator // gcd(den, c[k].denominator)
+    ints = {k: int(c[k] * den) for k in c}
+    g = 0
+    for k in ks:
+        g = gcd(g, abs(ints[k]))
+    if g <= 1:
+        return c
+    out = {k: Fraction(ints[k] // g) for k in ks}
+    c0 = ints.get('', 0)
+    fl = c0 // g            # floor division (Python semantics for negatives: rounds towards -inf)
+    if fl:
+        out[''] = Fraction(fl)
+    return out
+
+
+def _subst_equalities(cons):
+    """Equalities (a constraint and its negation both present) with a unit-coefficient atom are solved for that atom and substituted
+    everywhere, so that `e = 16k` keeps its divisibility information (plain elimination of k would forget it)."""
+    cons = list(cons)
+    for _ in range(32):
+        keyed = {}
+        for i, c in enumerate(cons):
+            keyed.setdefault(frozenset(c.items()), i)
+        pick = None
+        for i, c in enumerate(cons):
+            neg = frozenset((k, -v) for k, v in c.items())
+            j = keyed.get(neg)
+            if j is not None and j != i and c:
+                # prefer the atom that occurs in the fewest other constraints among the unit ones
+                units = [k for k, v in c.items() if k != '' and abs(v) == 1]
+                if units:
+                    pick = (i, j, units)
+                    break
+        if pick is None:
+            return cons
+        i, j, units = pick
+        c = cons[i]
+        # choose the unit atom whose removal leaves non-unit coefficients (the "defined" quantity: e in e = 16k)
+        var = max(units, key=lambda k: sum(abs(v) for kk, v in c.items() if kk not in ('', k)))
+        a = c[var]
+        # var = -(rest)/a
+        rest = {k: -v / a for k, v in c.items() if k != var}
+        out = []
+        for idx, d in enumerate(cons):
+            if idx in (i, j):
+                continue
+            if var in d:
+                coef = d[var]
+                nd = {k: v for k, v in d.items() if k != var}
+                for k, v in rest.items():
+                    nd[k] = nd.get(k, 0) + coef * v
+                d = _norm(nd)
+            out.append(d)
+        cons = out
+    return cons
+
+
 def _feasible(cons, limit=4000):
     """Is the system {c >= 0 for c in cons} satisfiable over the rationals?"""
-    cons = [_norm(c) for c in cons]
+    cons = _subst_equalities([_norm(c) for c in cons])
+    cons = [_tighten(c) for c in cons]
     while True:
         # constant-only constraints
         rest = []
@@ -46,7 +113,7 @@ def _feasible(cons, limit=4000):
                 for k, v in n.items():
                     comb[k] = comb.get(k, 0) + v * a
                 comb.pop(var, None)
-                new.append(_norm(comb))
+                new.append(_tighten(_norm(comb)))
         if len(new) > limit:
             return True  # give up: cannot prove infeasibility
         cons = new
